@@ -370,3 +370,132 @@ register(
     nontrivial=lambda sc, r: sum(1 for x in r.trace if x[3] == "trans") >= 3 and any(
         x[3] == "trans" and str(x[7]).startswith("done.state.") for x in r.trace),
 )
+
+
+# ===========================================================================
+# C11 - history
+# ===========================================================================
+_C11 = dict(p_history=0.7, p_compound=0.45, p_parallel=0.2, p_final=0.05, p_always=0.03, p_raise=0.03, n_states=(6, 13),
+            p_trans=0.6, w_target={"history": 8, "any": 5, "sibling": 4}, p_on_done=0.3)
+
+
+def gen_c11(engine, salt, with_restore=False, **kw):
+    def g(seed):
+        rng = _rng(seed, salt)
+        mg = MachineGen(rng, prof(**dict(_C11, **kw)))
+        out = mg.build()
+        ops = seq_ops(rng, mg, n_lo=6, n_hi=16)
+        if with_restore:
+            k = rng.randint(2, len(ops))
+            ops[k:k] = [{"op": "snapshot", "label": "last"}, {"op": "restore", "from": "last"}, {"op": "start"}]
+        return _base(seed, engine, out, ops)
+    return g
+
+
+register(
+    "C11",
+    families=[("hist_sync", 3, gen_c11("sync", 71)), ("hist_async", 2, gen_c11("async", 72)),
+              ("hist_parallel_sync", 2, gen_c11("sync", 73, hist_parallel=True, p_parallel=0.4)),
+              ("hist_parallel_async", 1, gen_c11("async", 74, hist_parallel=True, p_parallel=0.4)),
+              ("hist_restore_sync", 2, gen_c11("sync", 75, with_restore=True)),
+              ("hist_restore_async", 1, gen_c11("async", 76, with_restore=True, hist_parallel=True))],
+    oracle=O.oracle_c11,
+    stats=O.stats_c11,
+    level="exploration",
+    rule=("machines dense in shallow/deep history children (under compound and parallel parents, any depth, with and without default "
+          "targets) and transitions targeting them; the harness records, from entry/exit markers, what was active under each "
+          "history-owning parent at its last exit and computes the expected restored configuration with its own default-descent "
+          "function; a crash/restore (snapshot -> fresh machine -> from_snapshot -> start) is inserted at a random point in one third "
+          "of the runs. Non-trivial = >= 1 history transition from outside the parent and >= 3 transitions"),
+    nontrivial=lambda sc, r: O.stats_c11(sc, r)["history_transitions"] >= 1 and sum(1 for x in r.trace if x[3] == "trans") >= 3,
+)
+
+
+# ===========================================================================
+# C16 - determinism
+# ===========================================================================
+_C16 = dict(p_history=0.4, p_compound=0.4, p_parallel=0.4, p_final=0.08, p_always=0.08, p_raise=0.08, n_states=(6, 13),
+            p_trans=0.6, w_target={"history": 5, "any": 5, "ancestor": 2}, p_extra_entry=0.2)
+
+register(
+    "C16",
+    families=[("det_sync", 3, gen_core("sync", 161, **_C16)), ("det_async", 3, gen_core("async", 162, **_C16)),
+              ("det_pure", 1, gen_core("pure", 163, **_C16)),
+              ("det_hist_parallel_sync", 1, gen_core("sync", 164, hist_parallel=True, **_C16)),
+              ("det_timers_async", 1, gen_core("async", 165, ops_kw={"p_adv": 0.3}, p_after=0.3, p_invoke=0.2, svc_kinds=("coro", "sync"), **_C16))],
+    runner=O.run_c16,
+    level="exploration",
+    chunk=20,
+    tiers={"quick": {"runs": 1500}, "thorough": {"runs": 100000}},
+    rule=("each scenario (machines dense in parallel regions and deep/shallow history) is executed 6 times: under 4 different salts of "
+          "the StateNode hash (every set-iteration order is reachable by some salt) and twice with the unpatched address hash after "
+          "perturbing the heap; the normalised traces (actions, guards, transitions, configurations, contexts) must be identical. The "
+          "check's self-test additionally re-executes scenarios in a fresh interpreter under another PYTHONHASHSEED. "
+          "Non-trivial = >= 3 transitions; distinct = hash of the event/transition sequence"),
+)
+
+
+# ===========================================================================
+# C05 - engine equivalence
+# ===========================================================================
+_C05 = dict(p_history=0.0, p_parallel=0.25, p_final=0.12, p_always=0.12, p_raise=0.0, p_assign=0.3, p_choose=0.0, p_pure=0.0,
+            p_enq=0.0, n_states=(4, 11), p_extra_entry=0.25, assign_only=True)
+
+
+def gen_c05(salt, legs, **kw):
+    base = gen_core("sync", salt, **dict(_C05, **kw))
+
+    def g(seed):
+        sc = base(seed)
+        sc["legs"] = list(legs)
+        txt = repr(sc["machine"])
+        sc["uses_history"] = "'history'" in txt
+        sc["uses_raise"] = "xstate.raise" in txt
+        sc["uses_nested"] = any(x in txt for x in ("xstate.choose", "xstate.pure", "xstate.enqueueActions"))
+        sc["uses_invoke"] = "'invoke'" in txt
+        return sc
+    return g
+
+
+register(
+    "C05",
+    families=[("eq_all", 4, gen_c05(51, ("sync", "async", "async2", "pure"))),
+              ("eq_raise", 2, gen_c05(52, ("sync", "async", "pure"), p_raise=0.2)),
+              ("eq_nested", 1, gen_c05(56, ("sync", "async", "pure"), p_choose=0.15, p_pure=0.1, p_enq=0.1)),
+              ("eq_history", 2, gen_c05(53, ("sync", "async", "async2", "pure"), p_history=0.5, w_target={"history": 6})),
+              ("eq_services", 2, gen_c05(54, ("sync", "async", "async2"), p_invoke=0.3, svc_kinds=("sync",), p_raise=0.1)),
+              ("eq_hist_parallel", 1, gen_c05(55, ("sync", "async"), hist_parallel=True, p_parallel=0.4, p_history=0.4, p_raise=0.1,
+                                              p_choose=0.1, p_enq=0.1))],
+    runner=O.run_c05,
+    level="exploration",
+    chunk=30,
+    tiers={"quick": {"runs": 3000}, "thorough": {"runs": 200000}},
+    rule=("the same scenario (machine, logic, event sequence) is executed on SyncInterpreter, on Interpreter (under two different client "
+          "schedules) and through initial_transition/transition; after start and after every event the configuration, context, status and "
+          "output must agree, as must the ordered list of executed actions with their triggering events (sync vs async) and the list of "
+          "action names reported by transition(); the pure leg must call no generated callable, start no thread and leave its input "
+          "snapshot unchanged. Non-trivial = >= 3 transitions"),
+)
+
+
+# ===========================================================================
+# C06 - guards
+# ===========================================================================
+_C06 = dict(rich_guards=True, p_guard=0.8, p_two=0.5, p_trans=0.55, p_parallel=0.25, p_history=0.05, p_final=0.05, p_always=0.0,
+            p_raise=0.05, p_choose=0.3, p_enq=0.2, n_states=(4, 10), w_target={"none": 3, "ancestor": 2})
+
+register(
+    "C06",
+    families=[("guards_sync", 3, gen_core("sync", 81, **_C06)), ("guards_async", 3, gen_core("async", 82, **_C06)),
+              ("guards_nomissing_sync", 2, gen_core("sync", 83, w_missing_guard=0.0, **_C06)),
+              ("guards_always_sync", 1, gen_core("sync", 84, **dict(_C06, p_always=0.15)))],
+    oracle=O.oracle_c06,
+    stats=O.stats_c06,
+    level="exploration",
+    rule=("random guard formulas (and/or/not to depth 3 under the three operand spellings) over named, parameterised (literal and "
+          "computed params), stateIn (three id spellings, three param forms), raising and unimplemented atoms, written as guard or cond, "
+          "at every position of candidate lists and ancestor chains, in choose branches and enqueueActions.check; an independent "
+          "evaluator (raise = false; unimplemented = error unless the outcome is the same for both values) feeds the reference selection "
+          "rule; fired transitions / chosen branch / check() result are compared. Non-trivial = >= 3 guard evaluations and >= 2 transitions"),
+    nontrivial=lambda sc, r: sum(1 for x in r.trace if x[3] == "gcall") >= 3 and sum(1 for x in r.trace if x[3] == "trans") >= 2,
+)
